@@ -24,6 +24,7 @@ EXPLANATION = (
     " Round 4 (added): the observables' own evaluation times are merged into the solver times under a condition that does not depend on default_evaluation_times; the V2 states are labelled with the emulator's Hamiltonian.eigenbasis (KNOWN finding: they are not); the single-run shortcut of QutipEmulator.run and QutipBackendV2.run is taken under the same condition and excludes every noise type _noisy_runs redraws; the legacy time lookup returns the closest stored time or uses a tolerance below half a grid step (KNOWN finding: first match within a whole step)."
     " Round 5 (added): the bad-atom mask is read off the bit characters (no str->bool cast); the V2 config holds the emulated noise model; the initial state's eigenstate order is honoured; results are stored at configured times (KNOWN); single-pass bitstring conversion."
     " Round 6 (added after the fifth independent round of breaking changes): the initial state's eigenstates are compared as ordered tuples (no set / sorted / Counter); in the configuration rebuilt around the emulated noise model the 'noise_model' key follows the ** spread of the user's options."
+    " Round 7 (added after the sixth, smaller round of breaking changes): an undriven XY sequence is named 'XY' by Hamiltonian._get_basis_name; _build_collapse_operators resets self._collapse_ops before filling it; QutipEmulator._noiseless_hamiltonian is built from self.samples_obj at self._sampling_rate."
 )
 ASSUMPTIONS = ["declared types come from annotations; numpy arrays are recognised by their annotation names", "the unflipped-return rule reads the alternatives of the symbolic return value (pstatic/sym.py); the convention tables are compared with the literals of the source and of docs/source/conventions.md"]
 
